@@ -381,6 +381,9 @@ ElemForEach::sortChildren(
 
         const AVT* avt = sort->getLangAVT();
 
+        // The language belongs to this xsl:sort only...
+        langString.clear();
+
         if(0 != avt)
         {
             avt->evaluate(langString, *this, executionContext);
@@ -574,6 +577,9 @@ ElemForEach::transformSelectedChildren(
             assert(sort != 0);
 
             const AVT* avt = sort->getLangAVT();
+
+            // The language belongs to this xsl:sort only...
+            langString.clear();
 
             if(0 != avt)
             {
